@@ -1,13 +1,13 @@
-SPECIFICATION Spec
+SPECIFICATION TSpec
 CONSTANTS
   Ids = {"x"}
-  MaxLen = 3
-  MaxDepth = 2
-  MixKinds = FALSE
-  AsmForms = FALSE
+  MaxLen = 0
+  MaxDepth = 0
+  MixKinds = TRUE
+  AsmForms = TRUE
   DevsOn = {"ExternInheritsNoLinkage", "ThreadNoTentative", "ThreadMismatchNotDiagnosed", "InlineLateExternal", "NoUsedInternalUndefDiag"}
   OkPrefix = FALSE
-  SampleMod = 8
-  Emit = "all"
-INVARIANTS Inv_Refines Inv_OneDef Inv_ExportedExt Inv_FiredExplains Inv_Emit
+  SampleMod = 1
+  Emit = "none"
+POSTCONDITION TraceAccepted
 CHECK_DEADLOCK FALSE
